@@ -237,6 +237,16 @@ def run(ctx):
             for dirs in dirsets:
                 for rev in ((False, True) if len(inst['exedeps']) > 1 or len(inst['edges']) > 1 else (False,)):
                     cases.append((inst, dirs, rev))
+    if not th:
+        # quick: of the three-library DAGs only the chains (1 -> 2 -> 3, with and without the shortcut
+        # 1 -> 3) over static / shared libraries, every listing of the executable's libs in both orders
+        for inst in instances(3):
+            if sum(inst['needm']) or any(k not in ('static', 'shared') for k in inst['kinds']):
+                continue
+            if inst['edges'] not in ([(1, 2), (2, 3)], [(1, 2), (1, 3), (2, 3)]):
+                continue
+            for rev in ((False, True) if len(inst['exedeps']) > 1 else (False,)):
+                cases.append((inst, DIRSETS[3][0], rev))
     configs = []
     for m in modes:
         for cxx in ((None, 'exe', 'lib') if th else (None, 'exe')):
